@@ -144,6 +144,7 @@ class ScriptedTor(object):
         self.consumed = 0
         self.mode = 'ok'          # 'ok' | 'reject' | 'leaky'
         self.seg = 'whole'        # 'whole' | 'lines'
+        self.uploads = True       # False: the descriptor uploads have not happened (yet) when the history ends
         self.events = set()
         self.add_onion = []       # (raw line, parsed)
         self.del_onion = []       # raw argument strings
@@ -270,13 +271,15 @@ class ScriptedTor(object):
         self.created.append({'sid': sid, 'private_key': returned_key if 'DiscardPK' not in flags else None,
                              'leaked_key': returned_key if 'DiscardPK' in flags else None, 'client_blobs': cblobs})
         out = [''.join(l + '\r\n' for l in lines).encode('ascii')]
-        if 'HS_DESC' in self.events:
+        if 'HS_DESC' in self.events and self.uploads:
             dirs = ['$%s~hsdir%d' % (_h('fp', tag, i).hex()[:40].upper(), i) for i in range(2)]
             descid = base64.b32encode(_h('desc', tag)[:20]).decode('ascii').lower()
+            if basic:
+                dirs = dirs[:1]
             for d in dirs:
                 out.append(('650 HS_DESC UPLOAD %s %s %s %s\r\n' % (sid, authtype, d, descid)).encode('ascii'))
-            out.append(('650 HS_DESC UPLOADED %s %s %s\r\n' % (sid, 'UNKNOWN', dirs[0])).encode('ascii'))
-            out.append(('650 HS_DESC UPLOADED %s %s %s\r\n' % (sid, 'UNKNOWN', dirs[1])).encode('ascii'))
+            for d in dirs:
+                out.append(('650 HS_DESC UPLOADED %s %s %s\r\n' % (sid, 'UNKNOWN', d)).encode('ascii'))
         return out
 
 
@@ -291,7 +294,12 @@ class _Config(object):
         self.EphemeralOnionServices = []
 
 
+_REACTOR_CLASS = []
+
+
 def _make_reactor():
+    if _REACTOR_CLASS:
+        return _REACTOR_CLASS[0]()
     from twisted.internet.testing import MemoryReactorClock
     from twisted.internet.address import IPv4Address
     from twisted.internet import defer
@@ -321,6 +329,7 @@ def _make_reactor():
                 port = 40001 + 7 * len(self.allocated)
                 self.allocated.append(port)
             return _Port(IPv4Address('TCP', interface or '0.0.0.0', port))
+    _REACTOR_CLASS.append(_Reactor)
     return _Reactor()
 
 
@@ -371,7 +380,8 @@ def run_history(history):
     """history = {'cells': [cell...], 'remove_order': [cell indices], 'hseed': int}
     cell = {'version': 2|3, 'key': {'kind': none|discard|bare|prefixed|mismatch|crlf, 'value': str|None},
             'detach': bool|None, 'single_hop': bool|None, 'auth': None | [[name, token|None]...],
-            'ports': [int | [remote, local] | 'remote target'], 'via': 'create'|'tor', 'tor': 'ok'|'reject'|'leaky', 'seg': 'whole'|'lines'}
+            'ports': [int | [remote, local] | 'remote target'], 'via': 'create'|'tor', 'tor': 'ok'|'reject'|'leaky', 'seg': 'whole'|'lines',
+            'uploads': bool (does Tor report descriptor uploads before the history ends)}
     All creates run one after the other on one control connection, then the listed services are removed."""
     from txtorcon import onion as O
     from txtorcon.controller import Tor
@@ -415,11 +425,12 @@ def run_history(history):
 
     tor = ScriptedTor(proto, t, history.get('hseed', 0), on_step)
     made = []      # per cell: dict(svc=, sid=) or None
+    pending = []
 
     for ci, cell in enumerate(history['cells']):
         state['ci'] = ci
         sig = sig_of(cell)
-        tor.mode, tor.seg = cell.get('tor', 'ok'), cell.get('seg', 'whole')
+        tor.mode, tor.seg, tor.uploads = cell.get('tor', 'ok'), cell.get('seg', 'whole'), cell.get('uploads', True)
         kind = cell['key']['kind']
         value = _subst(cell['key'].get('value'))
         key_arg = None if kind == 'none' else (O.DISCARD if kind == 'discard' else value)
@@ -452,6 +463,8 @@ def run_history(history):
             pump_exc = e
         on_step()
         outcome = ('raised', sync_exc) if sync_exc is not None else (rec.results[0] if rec.results else ('pending', None))
+        if outcome[0] == 'pending':
+            pending.append(d)
         failed = outcome[0] in ('raised', 'err')
         adds = tor.add_onion[n_add0:]
         new_wire = t.value()[wire0:]
@@ -569,17 +582,18 @@ def run_history(history):
         if kind == 'none':
             rk = acc['private_key']
             if not (isinstance(pk, str) and pk.strip() in (rk, rk.split(':', 1)[1])):
-                bad('generated_key_retained', sig, 'observed private_key=%r; expected the key Tor generated (%s...)' % (pk if not isinstance(pk, str) else pk[:24], rk[:24]), ci)
+                bad('generated_key_retained', sig, 'observed private_key=%s; expected the key Tor generated (%s...)'
+                    % (repr(pk[:24]) if isinstance(pk, str) else 'None' if pk is None else type(pk).__name__, rk[:24]), ci)
         elif kind == 'discard':
             if pk is not None:
-                bad('discarded_key_never_stored', sig + '/final', 'observed private_key=%r on the created service; expected None (nothing stored)'
-                    % (pk if not isinstance(pk, (str, bytes)) else pk[:24],), ci)
+                bad('discarded_key_never_stored', sig + '/final', 'observed private_key=%s on the created service; expected None (nothing stored)'
+                    % ('the DISCARD marker' if pk is O.DISCARD else repr(pk[:24]) if isinstance(pk, (str, bytes)) else type(pk).__name__,), ci)
         else:
             bare = value.split(':', 1)[1] if ':' in value else value
             pref = value if ':' in value else ('RSA1024:' if cell['version'] == 2 else 'ED25519-V3:') + value
             if pk not in (value, bare, pref):
-                bad('supplied_key_kept_unchanged', sig, 'observed private_key=%r; expected the caller\'s key (%s...)'
-                    % (pk if not isinstance(pk, str) else pk[:24] + '...(%d chars)' % len(pk), value[:24]), ci)
+                bad('supplied_key_kept_unchanged', sig, 'observed private_key=%s; expected the caller\'s key (%s...)'
+                    % (pk[:24] + '...(%d chars)' % len(pk) if isinstance(pk, str) else 'None' if pk is None else type(pk).__name__, value[:24]), ci)
 
     # ---- sentence: removing the service sends DEL_ONION for exactly that address
     for ci in history.get('remove_order', []):
@@ -602,11 +616,36 @@ def run_history(history):
         if len(tor.add_onion) != n_add0:
             bad('exactly_one_add_onion', sig + '/on_remove', 'observed a further ADD_ONION while removing the service; expected none', ci)
         made[ci] = None
+    # end of the session: whoever still waits for descriptor uploads is told to stop waiting
+    for d in pending:
+        try:
+            d.cancel()
+            tor.pump()
+        except Exception:
+            pass
     return viol
 
 
+class _QuietFinalizers(object):
+    """abandoned inlineCallbacks generators (a descriptor wait nobody owns any more) are finalized by the garbage collector,
+    long after their session's transport is gone; Python reports what they then raise as 'Exception ignored in ...' on stderr"""
+    def __enter__(self):
+        import sys
+        self._old = sys.unraisablehook
+        sys.unraisablehook = lambda *a: None
+        return self
+
+    def __exit__(self, *exc):
+        import gc
+        import sys
+        gc.collect()
+        sys.unraisablehook = self._old
+        return False
+
+
 def replay_history(history):
-    return run_history(history)
+    with _QuietFinalizers():
+        return run_history(history)
 
 
 # ==========================================================================================
@@ -675,14 +714,17 @@ def make_key(kind, version, auth, n):
     return {'kind': 'crlf', 'value': shape % (blob if n % 2 else 'QUJDRA==')}
 
 
-def make_cell(version, kind, detach, single_hop, authpat, shape, n):
+def make_cell(version, kind, detach, single_hop, authpat, shape, n, uploads_every=1):
     auth = None if authpat is None else [[NAMES[(n + j) % len(NAMES)], (_b64(16, 'tok', n, j).rstrip('=') if tok else None)]
                                           for j, tok in enumerate(authpat)]
     cell = {'version': version, 'key': make_key(kind, version, auth, n), 'detach': detach, 'single_hop': single_hop, 'auth': auth,
             'ports': [make_port(f, j + (n % 5) * 3) for j, f in enumerate(shape)],
             'via': 'tor' if (auth is None and n % 4 == 1) else 'create',
             'tor': ('reject' if n % 11 == 5 else 'leaky' if n % 11 in (2, 7) else 'ok'),
-            'seg': 'lines' if n % 3 == 1 else 'whole'}
+            'seg': 'lines' if n % 3 == 1 else 'whole',
+            # matching an upload event to an authenticated service parses its RSA key (about 10 ms): only every k-th such history
+            # goes on until Tor reports the uploads, the others end while create() still waits for them
+            'uploads': auth is None or n % uploads_every == 0}
     return cell
 
 
@@ -691,7 +733,7 @@ def cell_id(cell):
             None if cell['auth'] is None else tuple(t is not None for _, t in cell['auth']),
             tuple('int' if isinstance(p, int) else ('pair_unix' if str(p[1]).startswith('unix:') else 'pair') if isinstance(p, list)
                   else ('str_unix' if ' unix:' in p else 'str') for p in cell['ports']),
-            cell['via'], cell['tor'])
+            cell['via'], cell['tor'], cell.get('uploads', True))
 
 
 def random_history(rnd, n):
@@ -703,7 +745,7 @@ def random_history(rnd, n):
         authpat = None if rnd.random() < 0.5 else [rnd.random() < 0.5 for _ in range(rnd.randint(0, 5))]
         shape = [rnd.choice(forms) for _ in range(rnd.randint(1, 6))]
         m = n * 7 + j
-        cell = make_cell(version, kind, rnd.choice((True, False, None)), rnd.choice((True, False, None)), authpat, shape, m)
+        cell = make_cell(version, kind, rnd.choice((True, False, None)), rnd.choice((True, False, None)), authpat, shape, m, 2)
         # distinct numbers per mapping, distinct client names
         cell['ports'] = [make_port(f, i + 10 * j) for i, f in enumerate(shape)]
         if cell['auth'] is not None:
@@ -729,7 +771,15 @@ def random_history(rnd, n):
     return {'cells': cells, 'remove_order': order[:rnd.randint(0, len(order))], 'hseed': n}
 
 
+LAST_COUNTS = {}    # violation key -> number of occurrences in the last twin() run (the returned list keeps at most 12 per key)
+
+
 def twin(tier, seed):
+    with _QuietFinalizers():
+        return _twin(tier, seed)
+
+
+def _twin(tier, seed):
     rnd = random.Random(seed)
     t0 = time.time()
     violations, per_key, evaluations, distinct, samples = [], {}, 0, set(), []
@@ -751,7 +801,7 @@ def twin(tier, seed):
         shapes = list(port_shapes(3))
         # (a) every option combination (version x key x detach x single-hop x auth 0..3 clients +- tokens), port shapes cycled
         for version, kind, det, hop, ap in itertools.product(versions, KEY_KINDS, dets, hops, auths):
-            cell = make_cell(version, kind, det, hop, ap, shapes[(n * 13) % len(shapes)], n)
+            cell = make_cell(version, kind, det, hop, ap, shapes[(n * 13) % len(shapes)], n, 3)
             run({'cells': [cell], 'remove_order': [0], 'hseed': n})
             evaluations += 1
             n += 1
@@ -760,7 +810,7 @@ def twin(tier, seed):
             for version in versions:
                 for kind in ('none', 'discard', 'prefixed'):
                     ap = auths[n % len(auths)] if n % 3 == 0 else None
-                    cell = make_cell(version, kind, dets[n % 2], hops[(n // 2) % 2], ap, shape, n)
+                    cell = make_cell(version, kind, dets[n % 2], hops[(n // 2) % 2], ap, shape, n, 3)
                     run({'cells': [cell], 'remove_order': [0], 'hseed': n})
                     evaluations += 1
                     n += 1
@@ -771,7 +821,7 @@ def twin(tier, seed):
     else:
         shapes = list(port_shapes(3))
         for version, kind, det, hop, ap, shape in itertools.product(versions, KEY_KINDS, dets, hops, auths, shapes):
-            cell = make_cell(version, kind, det, hop, ap, shape, n)
+            cell = make_cell(version, kind, det, hop, ap, shape, n, 8)
             run({'cells': [cell], 'remove_order': [0], 'hseed': n})
             evaluations += 1
             n += 1
@@ -789,12 +839,13 @@ def twin(tier, seed):
                                        'auth': c['auth'] if c['auth'] is None else [[nm, 'token' if tk else None] for nm, tk in c['auth']],
                                        'ports': c['ports'], 'via': c['via'], 'tor': c['tor']} for c in hist['cells']],
                             'remove_order': hist['remove_order']})
+    LAST_COUNTS.clear()
+    LAST_COUNTS.update(per_key)
     return {'evaluations': evaluations, 'distinct_nontrivial': len(distinct), 'samples': samples, 'violations': violations,
-            'violation_counts': per_key,
             'rule': 'one evaluation = one control session in which 1 (systematic part) or 1..4 (seeded part) ephemeral services are requested through the real '
                     'create()/Tor.create_onion_service against a scripted Tor that decodes ADD_ONION with its own parser, and are then removed; every cell is '
                     'non-trivial (a request is made and the wire is decoded); distinct by (version, key kind, detach, single-hop, client token pattern, '
                     'port-form sequence, entry point, Tor behaviour {ok, rejects, returns a key despite DiscardPK}); at most 12 violations are kept per key '
-                    '(all are counted in violation_counts)',
+                    '(all are counted in tC14.LAST_COUNTS)',
             'bounds': '%s; then %d seeded sessions of 1..4 services (1..6 mappings incl. ip / digit-string / private-address forms, 0..5 clients, '
                       'detach / single-hop in {True, False, None}) removed in random order' % (bounds_sys, nrand)}
